@@ -945,7 +945,11 @@ class ConstantReferenceApplier(TreeListener):
 
         if tree.child:
             try:
-                self.extra_symbols[-1][str(tree)] = self.classes[-1].find_constant_symbol(tree)
+                # Copy: the symbol is renamed and modified while flattening, and it
+                # belongs to the tree being flattened, which must stay as parsed.
+                self.extra_symbols[-1][str(tree)] = copy.deepcopy(
+                    self.classes[-1].find_constant_symbol(tree)
+                )
             except (
                 KeyError,
                 ast.ClassNotFoundError,
